@@ -140,7 +140,8 @@ def apath(t, names=None):
 
 WRAPPERS = ("std::ops::Try::branch", "std::future::IntoFuture::into_future", "std::pin::Pin::<Ptr>::new_unchecked", "futures::Future::poll",
             "std::future::Future::poll", "std::clone::Clone::clone", "std::convert::Into::into", "std::convert::From::from",
-            "std::result::Result::<T, E>::map_err", "std::option::Option::<T>::as_ref", "std::result::Result::<T, E>::as_ref")
+            "std::result::Result::<T, E>::map_err", "std::option::Option::<T>::as_ref", "std::result::Result::<T, E>::as_ref",
+            "std::option::Option::<T>::ok_or", "std::option::Option::<T>::ok_or_else", "std::result::Result::<T, E>::map", "std::result::Result::<T, E>::ok")
 
 
 def head_call(t):
